@@ -35,6 +35,11 @@ SEAMSIM = os.path.join(HERE, "target-seamsim", "release", "seamsim")
 SEAMSIM_DBG = os.path.join(HERE, "target-seamsim", "checked", "seamsim")
 
 ENV = dict(os.environ, CARGO_NET_OFFLINE="true")
+# glibc malloc otherwise trims and re-faults the heap top on every large temporary buffer
+# (measured: 3.6x more wall time, almost all of it in the kernel); tuning only, no effect on results
+ENV.setdefault("MALLOC_TRIM_THRESHOLD_", "2147483648")
+ENV.setdefault("MALLOC_MMAP_THRESHOLD_", "1073741824")
+ENV.setdefault("MALLOC_TOP_PAD_", "268435456")
 
 
 class HarnessError(Exception):
